@@ -828,7 +828,7 @@ private:
           {
             transit_event.logger_base->backtrace_storage->process(
               [this](TransitEvent const& te, std::string_view thread_id, std::string_view thread_name)
-              { _dispatch_transit_event_to_sinks(te, thread_id, thread_name); });
+              { _dispatch_backtrace_transit_event_to_sinks(te, thread_id, thread_name); });
           }
         }
       }
@@ -872,7 +872,7 @@ private:
         // process all records in backtrace for this logger and log them
         transit_event.logger_base->backtrace_storage->process(
           [this](TransitEvent const& te, std::string_view thread_id, std::string_view thread_name)
-          { _dispatch_transit_event_to_sinks(te, thread_id, thread_name); });
+          { _dispatch_backtrace_transit_event_to_sinks(te, thread_id, thread_name); });
       }
     }
     else if (transit_event.macro_metadata->event() == MacroMetadata::Event::Flush)
@@ -887,6 +887,24 @@ private:
 
       // We defer notifying the caller until after this function completes.
     }
+  }
+
+  /**
+   * Dispatches a stored backtrace transit event while the backtrace is being flushed.
+   * If a sink throws, the error is reported here and the remaining stored messages are still
+   * processed; otherwise the exception would leave BacktraceStorage::process() before the
+   * storage is cleared, the rest of the backtrace would be skipped and the whole backtrace would
+   * be written again by the next flush.
+   */
+  QUILL_ATTRIBUTE_HOT void _dispatch_backtrace_transit_event_to_sinks(TransitEvent const& transit_event,
+                                                                      std::string_view const& thread_id,
+                                                                      std::string_view const& thread_name)
+  {
+    QUILL_TRY { _dispatch_transit_event_to_sinks(transit_event, thread_id, thread_name); }
+#if !defined(QUILL_NO_EXCEPTIONS)
+    QUILL_CATCH(std::exception const& e) { _options.error_notifier(e.what()); }
+    QUILL_CATCH_ALL() { _options.error_notifier(std::string{"Caught unhandled exception."}); }
+#endif
   }
 
   /**
